@@ -1,7 +1,9 @@
 use core::convert::TryInto;
 
 use crate::{
-    error::{assert_finite, assert_limited_precision, panic_power_negative_base},
+    error::{
+        assert_finite, assert_finite_operands, assert_limited_precision, panic_power_negative_base,
+    },
     fbig::FBig,
     repr::{Context, Repr, Word},
     round::{Round, Rounded},
@@ -173,7 +175,7 @@ impl<R: Round> Context<R> {
     ///
     /// Panics if the precision is unlimited.
     pub fn powf<const B: Word>(&self, base: &Repr<B>, exp: &Repr<B>) -> Rounded<FBig<R, B>> {
-        assert_finite(base);
+        assert_finite_operands(base, exp);
         assert_limited_precision(self.precision); // TODO: we can allow it if exp is integer
 
         // shortcuts
